@@ -958,7 +958,7 @@ func GenerateRun(seed uint64, opt GenOptions) (*World, []Op) {
 	}
 	g.emit(mkConfigMap(globalConfigMapName, g.genGlobal(g.opt.InitialGlobal, g.pick(4))), "")
 	if g.opt.TCPConfigMap && g.chance(2, 3) {
-		g.emit(mkConfigMap(tcpConfigMapName, g.genTCPServices(nil, 1+g.pick(2))), "")
+		g.emit(mkConfigMap(tcpConfigMapName, g.genTCPServices(nil, 1+g.pick(3))), "")
 	}
 	ning := 1 + g.pick(g.opt.MaxIngresses)
 	for i := 0; i < ning; i++ {
@@ -1445,7 +1445,7 @@ func (g *gen) genTCPServices(cur map[string]string, n int) map[string]string {
 		data[k] = v
 	}
 	for i := 0; i < n; i++ {
-		port := pickStr(g, []string{"7100", "7101", "7102"})
+		port := pickStr(g, []string{"7100", "7101", "7102", "7100", "7101", "07100"}) // (07100 is port 7100 again)
 		if _, ok := data[port]; ok && g.chance(1, 3) {
 			delete(data, port)
 			continue
